@@ -82,7 +82,7 @@ theorem storeSet_absent (cfg : Cfg) (st : Store) (em : Em) (i : Item) (h : st.lo
   unfold storeSet
   simp [h]
 
-theorem storeDel_lookup (st : Store) (em : Em) (h : Hash) (c : Conf) (k : Hash) :
+theorem storeDel_lookup_f (st : Store) (em : Em) (h : Hash) (c : Conf) (k : Hash) :
     (storeDel st em h c).1.lookup k = st.lookup k ∨
       (k = h ∧ (storeDel st em h c).1.lookup k = none ∧ (st.lookup k).isSome) := by
   unfold storeDel
@@ -96,21 +96,21 @@ theorem storeDel_lookup (st : Store) (em : Em) (h : Hash) (c : Conf) (k : Hash) 
       · subst hk; exact Or.inr ⟨rfl, by simp, by simp [he]⟩
       · exact Or.inl (AMap.lookup_erase_ne _ hk)
 
-theorem storeDel_sub {st : Store} {em : Em} {h : Hash} {c : Conf} {k : Hash} {e : Entry}
+theorem storeDel_sub_f {st : Store} {em : Em} {h : Hash} {c : Conf} {k : Hash} {e : Entry}
     (hl : (storeDel st em h c).1.lookup k = some e) : st.lookup k = some e := by
-  rcases storeDel_lookup st em h c k with h1 | ⟨_, h1, _⟩
+  rcases storeDel_lookup_f st em h c k with h1 | ⟨_, h1, _⟩
   · rw [← h1]; exact hl
   · rw [h1] at hl; cases hl
 
 theorem storeDel_none {st : Store} {em : Em} {h : Hash} {c : Conf} {k : Hash}
     (hl : st.lookup k = none) : (storeDel st em h c).1.lookup k = none := by
-  rcases storeDel_lookup st em h c k with h1 | ⟨_, h1, _⟩
+  rcases storeDel_lookup_f st em h c k with h1 | ⟨_, h1, _⟩
   · rw [h1]; exact hl
   · exact h1
 
-theorem storeDel_lookup_ne (st : Store) (em : Em) {h : Hash} (c : Conf) {k : Hash} (hk : k ≠ h) :
+theorem storeDel_lookup_ne_f (st : Store) (em : Em) {h : Hash} (c : Conf) {k : Hash} (hk : k ≠ h) :
     (storeDel st em h c).1.lookup k = st.lookup k := by
-  rcases storeDel_lookup st em h c k with h1 | ⟨h1, _, _⟩
+  rcases storeDel_lookup_f st em h c k with h1 | ⟨h1, _, _⟩
   · exact h1
   · exact absurd h1 hk
 
@@ -161,7 +161,7 @@ theorem storeDelExpired_none {st : Store} {em : Em} {h : Hash} {c : Conf} {now :
   · rw [h1]; exact hl
   · exact h1
 
-theorem eraseAll_lookup (st : Store) (ks : List Hash) (k : Hash) :
+theorem eraseAll_lookup_f (st : Store) (ks : List Hash) (k : Hash) :
     (eraseAll st ks).lookup k = if k ∈ ks then none else st.lookup k := by
   induction ks generalizing st with
   | nil => simp [eraseAll]
@@ -175,19 +175,19 @@ theorem eraseAll_lookup (st : Store) (ks : List Hash) (k : Hash) :
 
 theorem eraseAll_sub {st : Store} {ks : List Hash} {k : Hash} {e : Entry}
     (h : (eraseAll st ks).lookup k = some e) : st.lookup k = some e := by
-  rw [eraseAll_lookup] at h
+  rw [eraseAll_lookup_f] at h
   split at h
   · cases h
   · exact h
 
 theorem eraseAll_none {st : Store} {ks : List Hash} {k : Hash}
     (h : st.lookup k = none) : (eraseAll st ks).lookup k = none := by
-  rw [eraseAll_lookup]; split <;> simp [h]
+  rw [eraseAll_lookup_f]; split <;> simp [h]
 
 /-- a complete enumeration of `k`'s shard erases `k` -/
 theorem eraseAll_shard {st : Store} {ks : List Hash} {k : Hash}
     (ho : isShardOrder st (shardIdx k) ks = true) : (eraseAll st ks).lookup k = none := by
-  rw [eraseAll_lookup]
+  rw [eraseAll_lookup_f]
   split
   · rfl
   · rename_i hk
@@ -215,7 +215,7 @@ theorem polDel_costs (on : Bool) (p : Pol) (m : Met) (h k : Hash) :
     · simp [hk]
   · simp [AMap.lookup_erase]
 
-theorem polDel_none {on : Bool} {p : Pol} {m : Met} {h k : Hash} (hl : p.costs.lookup k = none) :
+theorem polDel_none_f {on : Bool} {p : Pol} {m : Met} {h k : Hash} (hl : p.costs.lookup k = none) :
     (polDel on p m h).1.costs.lookup k = none := by
   rw [polDel_costs]; split <;> simp [hl]
 
@@ -236,7 +236,7 @@ theorem polDelAll_none {on : Bool} {k : Hash} (vs : List (Hash × Int)) (p : Pol
   | cons v rest ih =>
     obtain ⟨h, c⟩ := v
     simp only [polDelAll]
-    exact ih _ _ (polDel_none hl)
+    exact ih _ _ (polDel_none_f hl)
 
 theorem polAddKey_costs_ne (on : Bool) (p : Pol) (m : Met) (h : Hash) (c : Int) {k : Hash} (hk : k ≠ h) :
     (polAddKey on p m h c).1.costs.lookup k = p.costs.lookup k := by
